@@ -592,8 +592,39 @@ Fixpoint goal_any_neg (f : list clause -> ty -> bool) (P : program) (env : list 
   | _ => false
   end.
 
+(** Second form of F7n: the negated goal is a conjunction in which two conjuncts (at different
+    positions) reach two DIFFERENT members of one coinductive cycle — the table of the second
+    member was created as a non-root member of the first one's cycle (the F7 mechanism inside
+    one negative subgoal): [not { S0: C, S1: C }] over the ring [S0 :- S1], [S1 :- S0]. *)
+Definition reach_or_nil (fuel : nat) (cls : list clause) (a : ty) : list ty :=
+  match reach (bodies cls) fuel [a] [] with Some R => R | None => [] end.
+
+Fixpoint pairs_later {A : Type} (f : A -> A -> bool) (l : list A) : bool :=
+  match l with
+  | [] => false
+  | a :: r => existsb (f a) r || pairs_later f r
+  end.
+
+Definition two_cycle_members (fuel : nat) (cls : list clause) (co : list N) (a1 a2 : ty) : bool :=
+  existsb (fun g1 =>
+    isco co g1 &&
+    existsb (fun g2 => negb (ty_eqb g1 g2) && memT g2 (reach_plus fuel cls g1) && memT g1 (reach_plus fuel cls g2))
+            (reach_or_nil fuel cls a2)) (reach_or_nil fuel cls a1).
+
+Fixpoint f7n_conj (fuel : nat) (P : program) (env : list clause) (rho : list ty) (g : goal) : bool :=
+  match g with
+  | GNot g' =>
+      pairs_later (two_cycle_members fuel (allc P env) (pcoind P))
+                  (filter groundb (map (subst (listth rho)) (goal_atoms g')))
+      || f7n_conj fuel P env rho g'
+  | GAnd g1 g2 => f7n_conj fuel P env rho g1 || f7n_conj fuel P env rho g2
+  | GForall g' => f7n_conj fuel P env (TPh (fresh P env rho g') :: rho) g'
+  | GIf hs g' => f7n_conj fuel P (map (inst_hyp rho) hs ++ env) rho g'
+  | _ => false
+  end.
+
 Definition f7n_class (fuel : nat) (P : program) (g : goal) : bool :=
-  goal_any_neg (fun cls a => f7n_atom fuel cls (pcoind P) a) P [] [] false g.
+  goal_any_neg (fun cls a => f7n_atom fuel cls (pcoind P) a) P [] [] false g || f7n_conj fuel P [] [] g.
 
 (** F7q for goals with unknowns: some candidate instantiation of the unknowns makes the goal
     look at an atom of the F7n/F7q kind (for a non-ground goal every ground atom is a
@@ -697,6 +728,15 @@ Module ContractExamples.
   Example f7n_witness :
     f7n_class 50 P7q (GNot (GAtom (C (K 2)))) = true /\ eval_goal 50 P7q [] [] (GNot (GAtom (C (K 2)))) = Some false /\
     f7n_class 50 P7q (GAtom (C (K 2))) = false.
+  Proof. repeat split; reflexivity. Qed.
+
+  (* second form: not { S0: C, S1: C } over the simple ring S0 :- S1, S1 :- S0 (SLG: Ambiguous; truth: false) *)
+  Definition Pring := mkProg [mkClause (C (K 0)) [C (K 1)]; mkClause (C (K 1)) [C (K 0)]] [1000%N].
+  Example f7n_conj_witness :
+    f7n_class 50 Pring (GNot (GAnd (GAtom (C (K 0))) (GAtom (C (K 1))))) = true /\
+    eval_goal 50 Pring [] [] (GNot (GAnd (GAtom (C (K 0))) (GAtom (C (K 1))))) = Some false /\
+    f7n_class 50 Pring (GNot (GAtom (C (K 0)))) = false /\
+    f7n_class 50 Pring (GAnd (GAtom (C (K 0))) (GAtom (C (K 1)))) = false.
   Proof. repeat split; reflexivity. Qed.
   (* F1 through hypotheses: exists<A,B> { if (B: Tr; A: Tr) { A: Tr } } with SLG's definite [^0, ^0];
      and a two-unknown goal without hypotheses over linear heads is OUTSIDE the class *)
